@@ -87,6 +87,7 @@ type e2Machine struct {
 	failedPatches []pt.Action
 	// REST patches of a document that already had a log which were answered with an error
 	patchRefused []string
+	syncLost     []string
 	dead         map[int]bool // clients whose collection was reset (they would have to reconnect)
 	held         map[int][]heldResp
 	nfault       int
